@@ -7,7 +7,7 @@ rsync -a --delete --exclude target --exclude .git /repo/ $SX/repo/
 rsync -a --delete --exclude harness/target --exclude work --exclude .git --exclude evidence /verif/ $SX/verif/
 mkdir -p $SX/verif/evidence $SX/verif/work
 sed -i "s#path = \"/repo/#path = \"$SX/repo/#g" $SX/verif/harness/Cargo.toml
-(cd $SX/repo && patch -p1 -s < /verif/seeded/$ID/patch.diff) || { echo "patch does not apply"; exit 2; }
+(cd $SX/repo && patch -p1 -F3 -s < /verif/seeded/$ID/patch.diff) || { echo "patch does not apply"; exit 2; }
 for c in $CHECKS; do
   echo "== $ID: check $c ($TIER) on the seeded tree"
   (cd $SX/verif && timeout 3000 ./check $c --tier $TIER 2>&1 | grep -E "^VIOLATION|^  key|^NONCONF|: ok|VIOLATIONS|TOOL-ERROR" | cut -c1-220 | head -12)
